@@ -7,6 +7,33 @@ NOTE = (
 )
 
 CHECKS = {
+    "C09": {
+        "technique": "snapshot/compare wrappers around the real constructors and "
+        "rescale_pseudopressure (also on the raising path) + state oracles on the constructed "
+        "object (monotonicity, node values, range-bounded lookups incl. +-1e300, AM-GM bound)",
+        "level_text": "Runtime monitoring over shipped, library-built and synthetic tables as "
+        "DataFrame and dict, all three construction branches, p_i on / off nodes and outside.",
+        "design_ref": "DESIGN.md section 3, C09",
+        "level_note": NOTE,
+    },
+    "C15": {
+        "technique": "real pseudopressure_threephase driven with closed-form analytic callables and "
+        "captured (spy) inside from_table; harness trapezoid of the documented mobility; exact "
+        "power-of-two scaling",
+        "level_text": "Runtime monitoring over analytic families, the shipped oil+water table and "
+        "synthetic black-oil tables, uniform and non-uniform grids.",
+        "design_ref": "DESIGN.md section 3, C15",
+        "level_note": NOTE,
+    },
+    "C16": {
+        "technique": "real compressibility_combined_func / lambda_combined_func / alpha_multiphase "
+        "vs analytic storage derivatives (exact families) and Richardson differences of the "
+        "harness's documented storage function (tables)",
+        "level_text": "Runtime monitoring over analytic and tabulated fluid descriptions, "
+        "saturations, porosities, connate water and reference densities.",
+        "design_ref": "DESIGN.md section 3, C16",
+        "level_note": NOTE,
+    },
     "C06": {
         "technique": "icontract recording postcondition on z_factor_DAK (every evaluation, whoever "
         "calls it) judged against the harness's published-DAK residual; 10-psi continuity ladders; "
